@@ -27,6 +27,10 @@ def gen_tree(r, depth, used):
         if not cand:
             break
         n = r.choice(cand)
+        # names that are string prefixes of a sibling ('A' / 'A0', 'x' / 'xB'): a name prefix is not an ancestor
+        ext = [u + sfx for u in sorted(used) for sfx in ('0', 'B', 'x') if u + sfx not in used]
+        if ext and r.random() < 0.4:
+            n = r.choice(ext)
         used = used | {n}
         kids = gen_tree(r, depth + 1, set()) if depth < 2 and r.random() < 0.45 else []
         out.append([n, kids])
